@@ -57,6 +57,12 @@ def broadcastShared : List (String × Bool) := [("err", true), ("replies", true)
 /-- locals of Listen written by a goroutine it starts and accessed by another one: (name, every access inside a mutex section) -/
 def listenShared : List (String × Bool) := [("closed", false)]
 
+/-- per request method: what `bind` is initialised from, the condition under which it is replaced by the wildcard address, what the socket is opened on -/
+def bindFacts : List (String × List String) := [("Broadcast", ["net.UDPAddrFromAddrPort(u.bindAddr)", "bind == nil", "bind"]),
+  ("BroadcastTo", ["net.UDPAddrFromAddrPort(u.bindAddr)", "bind == nil", "bind"]),
+  ("SendUDP", ["net.UDPAddrFromAddrPort(u.bindAddr)", "bind == nil", "bind"]),
+  ("SendTCP", ["net.TCPAddrFromAddrPort(u.bindAddr)", "bind == nil", "bind"])]
+
 /-- size of the receive buffer each method reads a datagram into (0 = not recognised) -/
 def bufSizes : List (String × Nat) := [("Broadcast", 2048), ("BroadcastTo", 2048), ("SendUDP", 1024), ("SendTCP", 1024), ("Listen", 2048)]
 
